@@ -5,7 +5,11 @@ TIER=${1:-quick}
 OUT=/var/tmp/seedmatrix; rm -rf $OUT; mkdir -p $OUT
 cd /verif
 run_one() {
-  s=$1; P=${s%%-*}
+  s=$1; P=$(python3 -c "
+import json,re,sys
+m=json.load(open('/verif/seeded/$1/meta.json'))
+src=(m.get('caught_by') or '')+' '+str(m.get('property') or '')+' $1'
+print(re.search(r'C[0-9][0-9]',src).group(0))")
   R=$(mktemp -d /var/tmp/seedrepo.XXXXXX)
   cp -a /repo/. $R/
   if ! git -C $R apply /verif/seeded/$s/patch.diff 2>$OUT/$s.err; then echo "NOAPPLY $s" > $OUT/$s.txt; rm -rf $R; return; fi
